@@ -8,7 +8,7 @@ def run(ck, model_ok):
                'interleaving at every queue/event/thread/stop-flag/clock operation incl. the placement of every timeout expiry (weights 0.05..3, sticky runs); oracle: returns, '
                'outcome = sequential reference, no worker thread alive at return, no internal error; every recorded schedule is replayed step by step on the Coq model; '
                'non-trivial = distinct (scenario, seed)')
-    pc.run_family(ck, model_ok, 'C03', [('plain', 900, 60000)])
+    pc.run_family(ck, model_ok, 'C03', [('plain', 900, 40000)])
     ck.notes += ['code between two scheduling points is assumed atomic (it touches thread-local data only); timeouts may expire whenever the queue is empty / the event unset']
 
 
